@@ -68,6 +68,17 @@ class C04(PropertyCheck):
                     for n in HUGE:
                         ops = base(size) + [("Rseek", [str(pos)]), ("Rrb", [str(n)]), ("Rru8", []), ("rb", [str(pos), str(n)])]
                         cases.append(Case(pyarchive.render_case(e, 1, ops), "stream-block-reads-huge"))
+        # stream block writes: every cursor x every block length around the end of the data: success iff the block fits, otherwise
+        # out of bounds with the bytes that fit WRITTEN and the cursor at the end (C04_stream_write_bytes_spec); the empty block
+        # succeeds anywhere while the positional write of an empty block fails at or beyond the end
+        for e in "LB":
+            for size in (0, 1, 3, 4, 9):
+                for pos in range(0, size + 3):
+                    for n in range(0, 7):
+                        blk = "B" + bytes(0xA0 + i for i in range(n)).hex()
+                        ops = base(size) + [("Wseek", [str(pos)]), ("Wwb", [blk]), ("Wwu8", ["1"]), ("wb", [str(pos), blk]),
+                                            ("Rseek", [str(pos)]), ("Rrb", [str(n)])]
+                        cases.append(Case(pyarchive.render_case(e, 1, ops), "stream-block-writes"))
         # annotation records that no longer fit after a truncate / deallocate: reading them must be out of bounds (seeded change
         # C04-6 skipped the bounds check on a map hit), and writing the VALUE 0 over an annotated cell must leave the annotation alone
         # (seeded change C04-5 dropped the record on a zero write)
@@ -161,12 +172,24 @@ MANIFEST = dict(
          "returns Ok exactly when the range lies inside the data, Err(out-of-bounds) otherwise and never panics - for every address and "
          "length, also when address+length exceeds 2^64; a successful write changes only the addressed bytes (data = prefix ++ bytes ++ "
          "suffix, five annotation components equal), typed writes are block writes of the endian encoding, reads return what was written "
-         "(codec inverse both ways, two's-complement round trip), annotation accessors leave raw bytes alone, stream operations equal the "
-         "positional call at the cursor and advance by the width iff they succeed, label accesses keep the cursor, stream block reads "
-         "equal positional block reads. Model tied to /repo on every run by the extracted model vs the real library on an exhaustive "
-         "boundary grid (incl. usize::MAX region) + value patterns + random stream/positional interleavings in debug and release builds, "
+         "(codec inverse both ways, two's-complement round trip); the byte order is pinned against the base-256 digits of the value "
+         "(C04_endian_digits: byte i = digit i little-endian, digit w-1-i big-endian; literal 2- and 4-byte forms); annotation accessors "
+         "leave raw bytes alone and are accepted exactly on a 4-byte cell inside the data (labels: any address <= size), else "
+         "out-of-bounds, with the exact new state (C04_annotation_writes_bounds / _deletes_bounds / _reads_bounds); stream operations "
+         "equal the positional call at the cursor and advance by the width iff they succeed (unsigned, signed, annotations), label "
+         "accesses keep the cursor; stream block reads and block writes in closed form (C04_stream_read_bytes_spec, "
+         "C04_stream_write_bytes_spec): success iff the block fits behind the cursor, then equal to the positional block operation in "
+         "both directions with cursor + length; on failure out-of-bounds, never a panic, cursor at the end of the data - and for "
+         "writes the bytes that fit HAVE been written (the stream block write is successive byte writes, not atomic); the empty block "
+         "succeeds on a stream wherever the cursor stands while the positional call fails at or beyond the end. Model tied to /repo on "
+         "every run by the extracted model vs the real library on an exhaustive boundary grid (incl. usize::MAX region, stream block "
+         "reads and writes around the end) + value patterns + random stream/positional interleavings in debug and release builds, "
          "state compared after every call; an independent Python reference archive is the oracle.",
     note=TB + "Modelled, not verified: Vec/slice semantics, to_le_bytes/from_le_bytes (A-std). `address + 4` after the lower-bound check "
-              "is a plain sum (size <= isize::MAX). Strings are Shift-JIS encoded bytes (A-codec).",
+              "is a plain sum (size <= isize::MAX). seek/skip/tell are not modelled (cursor assignments; `skip` with an overflowing amount is "
+              "not a value access); the BinArchiveReader implementation of read_shift_jis_string (encoded_strings.rs, a stream read "
+              "built on skip) is not covered. 'Changes nothing on failure' is by the outcome type for positional calls (tied by leg K: "
+              "state compared after every failing call) and a real statement for stream writers (arch_of / the closed forms). "
+              "Strings are Shift-JIS encoded bytes (A-codec).",
     technique="Coq proof (case analysis on the bounds guards, list splice lemmas, codec round trip by induction) + extracted-model differential check",
     ref="DESIGN.md section 2 (C04)")
